@@ -43,6 +43,9 @@ mod absolute_to_relative_time {
     pub use serde::{Deserialize, Deserializer, Serialize, Serializer};
     pub use std::time::{Duration, Instant};
 
+    /// What a deadline too far away to be represented by the local clock is replaced with.
+    const FARTHEST_DEADLINE: Duration = Duration::from_secs(100 * 365 * 24 * 60 * 60);
+
     pub fn serialize<S>(deadline: &Instant, serializer: S) -> Result<S::Ok, S::Error>
     where
         S: Serializer,
@@ -56,7 +59,12 @@ mod absolute_to_relative_time {
         D: Deserializer<'de>,
     {
         let deadline = Duration::deserialize(deserializer)?;
-        Ok(Instant::now() + deadline)
+        let now = Instant::now();
+        // The duration is chosen by the peer: one that overflows the local clock must not
+        // panic. It is treated as the farthest deadline offered instead.
+        Ok(now
+            .checked_add(deadline)
+            .unwrap_or_else(|| now + FARTHEST_DEADLINE))
     }
 
     #[cfg(test)]
